@@ -15,6 +15,7 @@ import (
 	"strings"
 	"sync/atomic"
 	"time"
+	"verif/simrt"
 )
 
 func main() {
@@ -119,6 +120,9 @@ func workerMain(args []string) {
 	fs.Parse(args)
 	setupProcess(*nsites, *racelog)
 	loadSyncSites(*sitefile)
+	if *nsites > 0 {
+		simrt.EnableCoverage(*nsites)
+	}
 	tierThorough = *tier == "thorough"
 	ph := findPhase(*prop, *phase)
 	if ph == nil {
